@@ -34,6 +34,9 @@ pub fn parse_config(cfg: &Value) -> Result<Config, String> {
     read_config(BufReader::new(cfg.to_string().as_bytes())).map_err(|e| format!("{e}"))
 }
 
+/// number of written solutions whose telemetry block had to be dropped before parsing (non-finite values)
+pub static NON_FINITE_TELEMETRY: std::sync::atomic::AtomicUsize = std::sync::atomic::AtomicUsize::new(0);
+
 pub fn solve_to_solution(core: Arc<CoreProblem>, cfg: &Value) -> Result<(sol::Solution, String), Failure> {
     let config = parse_config(cfg).map_err(|e| Failure::new("harness:config-invalid", format!("generated config rejected: {e}\n{cfg}")))?;
     let text = match guard(|| vrp_cli::get_solution_serialized(core, config)) {
@@ -41,7 +44,26 @@ pub fn solve_to_solution(core: Arc<CoreProblem>, cfg: &Value) -> Result<(sol::So
         Ok(Err(e)) => return Err(Failure::new("solve:error", format!("solver returned an error for a valid problem: {e}"))),
         Err(p) => return Err(Failure::new(format!("solve:panic:{}", panic_site(&p)), format!("solver panicked: {p}"))),
     };
-    let solution = sol::deserialize_solution(BufReader::new(text.as_bytes())).map_err(|e| Failure::new("solve:unparsable-solution", format!("cannot parse written solution: {e}")))?;
+    // telemetry (`extras.metrics`, switched on by the generated configs) may carry non-finite fitness values, which are
+    // written as `null` and then do not parse as numbers; telemetry is not part of the solution proper: parse without it
+    let parsed = sol::deserialize_solution(BufReader::new(text.as_bytes())).map_err(|e| e.to_string()).or_else(|e| {
+        let Ok(mut doc) = serde_json::from_str::<Value>(&text) else { return Err(e) };
+        if doc.as_object_mut().and_then(|o| o.remove("extras")).is_none() {
+            return Err(e);
+        }
+        let stripped = doc.to_string();
+        let r = sol::deserialize_solution(BufReader::new(stripped.as_bytes())).map_err(|_| e);
+        if r.is_ok() {
+            NON_FINITE_TELEMETRY.fetch_add(1, std::sync::atomic::Ordering::Relaxed);
+        }
+        r
+    });
+    let solution = parsed.map_err(|e| {
+        let lines: Vec<&str> = text.lines().collect();
+        let at = e.to_string().split("line ").nth(1).and_then(|r| r.split(' ').next()).and_then(|n| n.parse::<usize>().ok()).unwrap_or(1);
+        let around = lines.iter().enumerate().skip(at.saturating_sub(12)).take(16).map(|(i, l)| format!("{:>4} {}", i + 1, l.trim_end())).collect::<Vec<_>>().join("\n");
+        Failure::new("solve:unparsable-solution", format!("cannot parse written solution: {e}\n{around}"))
+    })?;
     Ok((solution, text))
 }
 
@@ -322,13 +344,13 @@ pub fn property(id: &'static str, _tier: Tier) -> PropertyDef {
     let (which, rule, required): (RProp, &'static str, Vec<&'static str>) = match id {
         "C01" => (
             RProp::Feasibility,
-            "proptest: generated valid pragmatic problems (3-9 index locations with asymmetric integer matrices, optional non-metric / unreachable pairs / two profiles / scaled profiles; 1-12 jobs (thorough 30) of all task kinds incl. pickup+delivery and 3-task jobs, multi-place, 0-3 disjoint windows, 1-2 demand dimensions, skills, groups, compatibility, order, value; 1-3 vehicle types x 1-3 ids x 1-2 shifts, open/closed, start.latest, limits, optional breaks (window/offset, with/without location), reloads (optionally shared resource), explicit objective lists) x generated solver configs (population greedy/elitism/rosomaxa, hyper dynamic/static/custom operator lists over all ruin/recreate/local operators + decomposition, initial methods, maxGenerations, 1-3 pools x 1-4 threads), solved through vrp_cli::get_solution_serialized; the written solution is judged by the independent reference model R (capacity per reload interval and dimension, windows, shift times, skills, limits, group, compatibility, hard order, reachability, shared resource). Non-trivial: a tour with >=2 customer activities and a binding constraint (load >=80% of capacity, arrival in the last 5% of a window/shift, limit >=90% used) or skills/group/compatibility/order/reload/break/shared-resource feature in an assigned tour. Distinct by case hash.",
+            "proptest: generated valid pragmatic problems (3-9 index locations with asymmetric integer matrices, optional non-metric / unreachable pairs / two profiles / scaled profiles; 1-12 jobs (thorough 30) of all task kinds incl. pickup+delivery and 3-task jobs, multi-place, 0-3 disjoint windows, 1-2 demand dimensions, skills, groups, compatibility, order, value; 1-3 vehicle types x 1-3 ids x 1-2 shifts, open/closed, start.latest, limits, optional breaks (window/offset, with/without location), reloads (optionally shared resource), explicit objective lists) x generated solver configs (population greedy/elitism/rosomaxa, hyper dynamic/static/custom operator lists over all ruin/recreate/local operators + decomposition, initial methods, maxGenerations, 1-3 pools x 1-4 threads), solved through vrp_cli::get_solution_serialized; the written solution is judged by the independent reference model R (capacity per reload interval and dimension, windows, shift times, skills, limits, group, compatibility, hard order, reachability, shared resource). Sub-check construction_reachability: solutions built by insertions only (each of the 11 recreate operators on an empty solution; problems with flagged pairs and without breaks/reloads, so nothing is ever removed) never drive a leg flagged unreachable - this part of the reachability rule is not covered by the open known finding on removals (non-trivial there: a tour visits an end point of a flagged pair). Non-trivial: a tour with >=2 customer activities and a binding constraint (load >=80% of capacity, arrival in the last 5% of a window/shift, limit >=90% used) or skills/group/compatibility/order/reload/break/shared-resource feature in an assigned tour. Distinct by case hash.",
             vec!["nontrivial", "fact.binding_capacity", "fact.binding_time_window", "fact.reload_assigned", "fact.break_assigned", "fact.skills_assigned", "fact.group_assigned", "fact.compatibility_assigned", "fact.order_assigned", "semantics.full"],
         ),
         "C02" => (
             RProp::Conservation,
-            "same generated problems x configs as C01; oracle = bookkeeping model over ids: every plan job either complete in exactly one tour (all tasks once, matched by kind and unique tag, pickups first) or exactly once in unassigned with >=1 reason; no foreign/duplicate ids; every tour names an existing vehicle/type/shift used once and serves >=1 customer job; every break/reload activity maps injectively to one defined on that vehicle shift. Non-trivial: problem has a multi-task job or an assigned break/reload, and the solution has an unassigned job or >=2 tours. Distinct by case hash.",
-            vec!["nontrivial", "fact.has_unassigned", "fact.multi_tour", "fact.multi_task_assigned", "fact.reload_assigned", "fact.break_assigned"],
+            "same generated problems x configs as C01; oracle = bookkeeping model over ids: every plan job either complete in exactly one tour (all tasks once, matched by kind and unique tag, pickups first) or exactly once in unassigned with >=1 reason; no foreign/duplicate ids; every tour names an existing vehicle/type/shift used once and serves >=1 customer job; every break/reload activity maps injectively to one defined on that vehicle shift. Sub-check e2e_ext_conservation: the same bookkeeping on problems extended with vicinity clustering (thresholds, visiting/serving policies, with/without a filtering policy, jobs co-located so that clusters form), required breaks (exact and offset form, replacing the optional breaks of the shift) and relations read off a witness solution of the extended problem (non-trivial there: a stop with >=2 clustered activities or an assigned required break). Non-trivial: problem has a multi-task job or an assigned break/reload, and the solution has an unassigned job or >=2 tours. Distinct by case hash.",
+            vec!["nontrivial", "fact.has_unassigned", "fact.multi_tour", "fact.multi_task_assigned", "fact.reload_assigned", "fact.break_assigned", "ext.solution.cluster_of_two_or_more", "ext.fact.required_break_assigned", "ext.solution.transit_stop", "ext.clustering_with_filtering_and_relations"],
         ),
         _ => (
             RProp::Reporting,
@@ -342,10 +364,20 @@ pub fn property(id: &'static str, _tier: Tier) -> PropertyDef {
         rule,
         assumptions: vec![
             "reference model R (harness/src/engines/refmodel.rs) is a faithful reading of the documented pragmatic semantics; it is cross-checked on the repository's example problem/solution pairs",
-            "required breaks, vicinity clustering, recharge and time-dependent matrices are judged under restricted semantics (not generated in this engine)",
+            "required breaks and vicinity clustering are judged under restricted semantics (bookkeeping rules only, generated by sub-check e2e_ext_conservation of C02); recharge and time-dependent matrices are not generated in this engine",
             "thread interleavings and termination moments are sampled, not enumerated",
         ],
-        props: vec![Box::new(E2eProp { which: which.clone(), property: id }), Box::new(RelProp { which: which.clone(), property: id }), Box::new(E2eDocProp { which, property: id })],
+        props: {
+            let mut props: Vec<Box<dyn DynProp>> = vec![Box::new(E2eProp { which: which.clone(), property: id }), Box::new(RelProp { which: which.clone(), property: id })];
+            if id == "C02" {
+                props.push(Box::new(super::ext::ExtProp { property: id }));
+            }
+            if id == "C01" {
+                props.push(Box::new(super::ext::ConstructionReachabilityProp));
+            }
+            props.push(Box::new(E2eDocProp { which, property: id }));
+            props
+        },
         extra: None,
         required_classes: required,
     }
